@@ -1888,7 +1888,37 @@ fn cross_kind(ctx: &mut Ctx) {
 		}
 		ctx.nontrivial(hash64(&("mid-callback write", kind)));
 	}
-	ctx.traces += 26 + 36 + 6 + 4 + 4;
+	// 14. commands to an effect that lives in the feedback loop of a delay (its handle comes from DelayBuilder::add_feedback_effect):
+	//     they reach it like commands to any other effect
+	for (warm, line_frames) in [(0usize, 1u64), (4, 1), (0, 3), (4, 3)] {
+		ctx.evals += 1;
+		use kira::effect::delay::DelayBuilder;
+		use kira::effect::volume_control::VolumeControlBuilder;
+		let mut m = rig::manager(8, 2, rig::caps(4), MainTrackBuilder::new());
+		let mut db = DelayBuilder::new().delay_time(Duration::from_secs_f64(line_frames as f64 / 8.0)).feedback(Decibels(-6.0)).mix(kira::Mix::WET);
+		let mut vh = db.add_feedback_effect(VolumeControlBuilder::new(Decibels(0.0)));
+		let mut t = m.add_sub_track(TrackBuilder::new().with_effect(db)).unwrap();
+		let _s = t.play(dc_loop(8, 0.5)).unwrap();
+		let mut out: Vec<(f32, f32)> = vec![];
+		for _ in 0..warm {
+			rig::render_stereo(&mut m, 4, &mut out);
+		}
+		let before = out.last().map(|f| f.0).unwrap_or(f32::NAN);
+		vh.set_volume(Decibels::SILENCE, instant());
+		out.clear();
+		for _ in 0..6 {
+			rig::render_stereo(&mut m, 4, &mut out);
+		}
+		// with the loop gain at zero the (fully wet) delay falls silent once the line has run out
+		if out[12..].iter().any(|f| f.0 != 0.0) {
+			ctx.fail(
+				"a command to an effect hosted in a delay's feedback loop never reaches it :: cross-kind".to_string(),
+				format!("track with Delay(line {} frame(s), feedback -6 dB, fully wet) hosting VolumeControl(0 dB) in its feedback loop, DC 0.5; {} callbacks of 4 frames (output then {}); hosted_volume.set_volume(SILENCE, instant); the next 24 frames: {:?}, expected silence from frame 12 on", line_frames, warm, before, out.iter().map(|f| f.0).collect::<Vec<_>>()),
+			);
+		}
+		ctx.nontrivial(hash64(&("hosted effect command", warm, line_frames)));
+	}
+	ctx.traces += 26 + 36 + 6 + 4 + 4 + 4;
 	ctx.transitions += 20 + 12 * 7 + 26 + 36 + 100 + 36 * 6 + 6 * 6;
 	ctx.state(hash64(&"cross"));
 	ctx.outcome(hash64(&"cross"));
